@@ -41,6 +41,18 @@ Theorem C20_oracle_holds_on_model_quic : forall ms,
 Proof. exact (oracle_holds_on_model true). Qed.
 Print Assumptions C20_oracle_holds_on_model_quic.
 
+(* calls that overlap in time on one Fetcher (FetchData holds the Fetcher's lock for the whole
+   exchange, fix commit 1f1f6e3, so the calls take effect one after the other in the order in
+   which they get the lock): the oracle for overlapping calls - "some order of the calls, with
+   the connections in the order they reached the peer, is a history the sequential oracle
+   accepts, and the fetcher ends up holding what that history leaves" - accepts the results and
+   the final state of the model whenever the order the lock chose is among the candidates *)
+Theorem C20_overlap_oracle_holds_on_model : forall quic ms cands, Forall mop_ok ms ->
+  In (map op_of ms, model_run quic kzero ms) cands ->
+  C20_overlap_ok quic cands (model_final quic kzero ms) = true.
+Proof. exact overlap_oracle_holds_on_model. Qed.
+Print Assumptions C20_overlap_oracle_holds_on_model.
+
 (* an exchange with a conforming-encoding peer succeeds iff the peer negotiated ntske/1 and,
    among the records that arrived completely, an end-of-message record is reached before any
    error record or unrecognised critical record, the (last) algorithm is 15 and there is at
